@@ -327,6 +327,11 @@ func verifStubBytesNewReader(b []byte) *bytes.Reader {
 
 func verifStubPutObject(c *s3.Client, ctx context.Context, in *s3.PutObjectInput, opts ...func(*s3.Options)) (*s3.PutObjectOutput, error) {
 	ghostLog("s3.put.call")
+	verifBackupAttemptTimes = append(verifBackupAttemptTimes, verifBackupClock)
+	// an upload takes time: anything up to doBackup's five-minute limit
+	dur := nondetMathI64("upload.seconds")
+	assume(and(dur >= 0, dur <= 300))
+	verifBackupClock += dur
 	if nondetBool("db.written.during.upload") {
 		verifBackup.curGen++ // a write racing the upload
 	}
@@ -337,7 +342,7 @@ func verifStubPutObject(c *s3.Client, ctx context.Context, in *s3.PutObjectInput
 	rd, _ := in.Body.(*bytes.Reader)
 	verifBackup.uploads = append(verifBackup.uploads, verifBackup.readers[rd])
 	verifBackup.uploadGen = append(verifBackup.uploadGen, verifBackup.curGen)
-	verifBackupUploadTimes = append(verifBackupUploadTimes, verifBackupClock)
+	verifBackupUploadTimes = append(verifBackupUploadTimes, verifBackupAttemptTimes[len(verifBackupAttemptTimes)-1])
 	assert("bucket-and-key-set", and(in.Bucket != nil, in.Key != nil))
 	ghostLog("s3.put")
 	return &s3.PutObjectOutput{}, nil
@@ -345,6 +350,31 @@ func verifStubPutObject(c *s3.Client, ctx context.Context, in *s3.PutObjectInput
 
 var verifBackupClock int64 // ghost seconds
 var verifBackupUploadTimes []int64
+var verifBackupAttemptTimes []int64
+
+// time.NewTicker: ticks on a fixed grid; one tick stays pending while the receiver is busy.
+var verifTickerNext, verifTickerPeriod int64
+
+func verifStubNewTicker(d time.Duration) *time.Ticker {
+	verifTickerPeriod = int64(d / time.Second)
+	verifTickerNext = verifBackupClock + verifTickerPeriod
+	t := &time.Ticker{}
+	t.C = envChanDyn[time.Time]("ticker", func() bool { return !verifCancelDecision() }, func() {
+		verifBackup.waits++
+		ghostLog("backup.wait")
+		if verifBackupClock < verifTickerNext {
+			verifBackupClock = verifTickerNext // sleep until the next grid point
+			verifTickerNext += verifTickerPeriod
+		} else {
+			// a tick was already pending: consumed at once; the following one is the next grid point after now
+			k := (verifBackupClock-verifTickerNext)/verifTickerPeriod + 1
+			verifTickerNext += k * verifTickerPeriod
+		}
+	})
+	return t
+}
+
+func verifStubTickerStop(t *time.Ticker) {}
 
 func verifStubBackupKey() string { return "2026/9/27/db.json" }
 
@@ -352,31 +382,30 @@ type verifBackupCtx struct{ done bool }
 
 func (c *verifBackupCtx) Deadline() (time.Time, bool) { return time.Time{}, false }
 func (c *verifBackupCtx) Done() <-chan struct{} {
-	if !verifBackupDecided {
-		verifDecideCancel()
-	}
-	verifBackupDecided = false
-	if verifBackupCancelNow {
+	if verifCancelDecision() {
 		c.done = true
 	}
 	return envChan[struct{}]("ctx.done", c.done)
 }
 
-// cancellation may arrive during any wait; the server is eventually shut down.
-// The decision is taken once per wait by whichever of time.After / ctx.Done is evaluated first,
-// so that exactly one case of the select is ready.
-var verifBackupDecided, verifBackupCancelNow bool
+// Cancellation may arrive during any wait; the server is eventually shut down. One decision per wait, shared by
+// whichever of the timer channel and ctx.Done() is looked at first, so that exactly one case of the select is ready.
+var verifBackupCancelNow bool
+var verifDecidedAtWait int
 
-func verifDecideCancel() {
-	verifBackupDecided = true
+func verifCancelDecision() bool {
 	if verifBackupCancelNow {
-		return
+		return true
 	}
-	if verifBackup.waits > param("rounds") {
-		verifBackupCancelNow = true
-	} else {
-		verifBackupCancelNow = nondetBool("ctx.cancelled")
+	if verifDecidedAtWait != verifBackup.waits {
+		verifDecidedAtWait = verifBackup.waits
+		if verifBackup.waits > param("rounds") {
+			verifBackupCancelNow = true
+		} else {
+			verifBackupCancelNow = nondetBool("ctx.cancelled")
+		}
 	}
+	return verifBackupCancelNow
 }
 
 func (c *verifBackupCtx) Err() error {
@@ -396,8 +425,7 @@ func verifStubTimeAfter(d time.Duration) <-chan time.Time {
 	verifBackupLastWait = d
 	verifBackupClock += int64(d / time.Second)
 	ghostLog("backup.wait")
-	verifDecideCancel()
-	return envChan[time.Time]("time.after", !verifBackupCancelNow)
+	return envChan[time.Time]("time.after", !verifCancelDecision())
 }
 
 var verifBackupLastWait time.Duration
